@@ -232,6 +232,8 @@ func outCampaign(r *ev.Run, prop string) {
 		perCap = 1 << 30
 	}
 	states, trans, ntr, nev := 0, 0, 0, 0
+	analysed := 0
+	reported := map[string]bool{}
 	nontrivial := map[string]bool{}
 	for _, cp := range caps {
 		// 1. the specification itself: invariants and liveness
@@ -364,11 +366,16 @@ func outCampaign(r *ev.Run, prop string) {
 				idx[i] = i
 			}
 			var rej []int
-			if err := findRejected("BrokerOutTrace", cfgText, idx, traces, 4, &rej); err != nil {
+			if analysed >= 4 {
+				fmt.Printf("note: further rejected output traces (cap %d, io %v) are not analysed: 4 already were\n", cp, io)
+				continue
+			}
+			if err := findRejected("BrokerOutTrace", cfgText, idx, traces, 2, &rej); err != nil {
 				r.Inconclusive("bisecting rejected traces: %v", err)
 				return
 			}
 			for _, k := range rej {
+				analysed++
 				at, inv, err := firstRefused("BrokerOutTrace", cfgText, traces[k])
 				if err != nil || at < 0 {
 					r.Inconclusive("locating refused event: %v", err)
@@ -376,14 +383,26 @@ func outCampaign(r *ev.Run, prop string) {
 				}
 				p, aspect := outAttribute(traces[k][at], inv)
 				ru := which[k]
+				if p == "C03" && inv == "" {
+					// TLC takes a Log event as proof that the chunk was handed over.  When the bytes
+					// actually shown satisfy the statement and it is the log that claims more than
+					// was delivered, the refusal contradicts C11, not C03.
+					c03, c11 := outByteOracles(ru.res)
+					if !c03 && c11 {
+						p, aspect = "C11", "output-log:record-without-delivery"
+					}
+				}
 				detail := map[string]any{"kind": "BrokerOut-trace", "och_cap": cp, "io": io, "settle": ru.opts.Settle, "seed": ru.opts.Seed,
 					"schedule": ru.sched, "trace": traces[k], "refused_event_index": at, "refused_event": traces[k][at], "violated_invariant": inv,
 					"sent_bytes": len(ru.res.SentBytes), "leaked": ru.res.Leaked}
 				switch {
 				case p == "":
 					r.Inconclusive("trace rejected at a harness event %v (cap %d): %v", traces[k][at], cp, traces[k])
+				case p == prop && reported[aspect]:
+					// the same refusal again
 				case p == prop:
 					// reproduce on a fresh execution of the same schedule before reporting
+					reported[aspect] = true
 					if reproduces(ru, cfgText, p, aspect) {
 						r.Violation(aspect, detail)
 					} else {
@@ -433,6 +452,11 @@ func reproduces(ru *outRun, cfgText, prop, aspect string) bool {
 			continue
 		}
 		p, a := outAttribute(res.Trace[at], inv)
+		if p == "C03" && inv == "" {
+			if c03, c11 := outByteOracles(res); !c03 && c11 {
+				p, a = "C11", "output-log:record-without-delivery"
+			}
+		}
 		if p == prop && a == aspect {
 			hits++
 		}
@@ -476,4 +500,31 @@ func ctlLiveness(r *ev.Run) {
 	}
 	r.Add("states", res.Distinct)
 	r.Append("tlc_invariants_checked", "BrokerCtl_live (fairness): PeerCancelled ShutdownEnds")
+}
+
+// outByteOracles restates C03 and C11 on the bytes of one execution: what was
+// shown must be a prefix of what was sent (everything, with the notice last,
+// unless the stream was cancelled), and the logged chunks must be exactly the
+// chunks the terminal received.
+func outByteOracles(o *brk.OutResult) (c03fails, c11fails bool) {
+	var shown []byte
+	for _, c := range o.Shown {
+		shown = append(shown, c...)
+	}
+	if !bytes.HasPrefix(o.SentBytes, shown) {
+		c03fails = true
+	}
+	if !o.Cancelled && (!bytes.Equal(shown, o.SentBytes) || (o.NoticeAt >= 0 && o.NoticeAt != o.Takes-1)) {
+		c03fails = true
+	}
+	if len(o.LogData) != len(o.Shown) {
+		c11fails = true
+	} else {
+		for i := range o.LogData {
+			if o.LogData[i] != string(o.Shown[i]) {
+				c11fails = true
+			}
+		}
+	}
+	return
 }
